@@ -53,12 +53,16 @@ def tree_hash():
 
 
 def _prune_old(keep):
+    """disk is limited: keep the two most recently used older trees, and never remove one that was used in the last
+    hour (another check, or a run against a seeded tree, may be using it)"""
     if not os.path.isdir(BUILD):
         return
-    ents = [d for d in os.listdir(BUILD) if d != keep]
+    now = time.time()
+    ents = [d for d in os.listdir(BUILD) if d != keep and os.path.isdir(os.path.join(BUILD, d))]
     ents.sort(key=lambda d: os.path.getmtime(os.path.join(BUILD, d)))
-    for d in ents[:-1] if len(ents) > 1 else []:   # keep at most one older tree
-        shutil.rmtree(os.path.join(BUILD, d), ignore_errors=True)
+    for d in ents[:-2] if len(ents) > 2 else []:
+        if now - os.path.getmtime(os.path.join(BUILD, d)) > 3600:
+            shutil.rmtree(os.path.join(BUILD, d), ignore_errors=True)
 
 
 class _flock:
